@@ -193,6 +193,77 @@ DateTable(ver) == {[y |-> y, m |-> m, d |-> d, z |-> z, ok |-> DateOK(ver, y, m,
                      y \in Years, m \in Months, d \in Days, z \in Zones}
 
 ------------------------------------------------------------------------------
+(* xs:time from a catalogue of field spellings: hh:mm:ss(.s+)? zone?; 24:00:00 is  *)
+(* the end of the day and the only form with hour 24.                             *)
+Hours   == {"00", "12", "23", "24", "25", "7"}
+Minutes == {"00", "59", "60", "5"}
+Seconds == {"00", "59", "00.5", "00.", "5", "61"}
+TimeOK(h, mi, sec, z) ==
+  /\ ZoneOK(z)
+  /\ \/ (h \in {"00", "12", "23"} /\ mi \in {"00", "59"} /\ sec \in {"00", "59", "00.5"})
+     \/ (h = "24" /\ mi = "00" /\ sec = "00")
+TimeTable == {[h |-> h, mi |-> mi, s |-> sec, z |-> z, ok |-> TimeOK(h, mi, sec, z)] :
+                h \in Hours, mi \in Minutes, sec \in Seconds, z \in {"", "Z", "+14:00", "+14:01", "+5:00"}}
+
+(* xs:duration as a little grammar: sign? 'P' (nY)? (nM)? (nD)? ('T' (nH)? (nM)? (n(.n)?S)?)?  *)
+(* with at least one component, 'T' only before a time component, units in order     *)
+(* and at most once.  A component is <<number class, unit>>; number classes "1",      *)
+(* "1.5" (fraction: seconds only), "1." (no digit after the point: never).            *)
+DateParts == {<<>>, <<<<"1", "Y">>>>, <<<<"1", "M">>>>, <<<<"1", "D">>>>,
+              <<<<"1", "Y">>, <<"1", "M">>, <<"1", "D">>>>, <<<<"1", "M">>, <<"1", "Y">>>>,
+              <<<<"1", "Y">>, <<"1", "Y">>>>, <<<<"1.5", "Y">>>>, <<<<"1", "H">>>>}
+TimeParts == {<<>>, <<<<"1", "H">>>>, <<<<"1", "S">>>>, <<<<"1", "H">>, <<"1", "M">>, <<"1", "S">>>>,
+              <<<<"1", "S">>, <<"1", "H">>>>, <<<<"1.5", "S">>>>, <<<<"1.5", "H">>>>, <<<<"1.", "S">>>>,
+              <<<<"1", "D">>>>}
+Rank(u, time) == IF time THEN CASE u = "H" -> 1 [] u = "M" -> 2 [] u = "S" -> 3 [] OTHER -> 0
+                 ELSE CASE u = "Y" -> 1 [] u = "M" -> 2 [] u = "D" -> 3 [] OTHER -> 0
+PartsOK(ps, time) ==
+  /\ \A i \in DOMAIN ps : Rank(ps[i][2], time) # 0
+  /\ \A i \in DOMAIN ps : \A j \in DOMAIN ps : i < j => Rank(ps[i][2], time) < Rank(ps[j][2], time)
+  /\ \A i \in DOMAIN ps : ps[i][1] = "1" \/ (ps[i][1] = "1.5" /\ time /\ ps[i][2] = "S")
+(* validity is a function of the TEXT: the components in the order written, the part after  *)
+(* the (single) 'T' read as time components, everything else as date components            *)
+DurToks(date, t, time) == date \o (IF t THEN <<<<"T", "T">>>> ELSE <<>>) \o time
+DurationOK(sign, p, date, t, time) ==
+  LET tk == DurToks(date, t, time)
+      ts == {i \in DOMAIN tk : tk[i][2] = "T"}
+  IN /\ sign \in {"", "-"} /\ p
+     /\ IF ts = {} THEN tk # <<>> /\ PartsOK(tk, FALSE)
+        ELSE LET k == CHOOSE i \in ts : TRUE IN
+               /\ PartsOK(SubSeq(tk, 1, k - 1), FALSE)
+               /\ k < Len(tk) /\ PartsOK(SubSeq(tk, k + 1, Len(tk)), TRUE)
+DurationTable == {[sign |-> sg, p |-> p, date |-> d, t |-> t, time |-> ti, ok |-> DurationOK(sg, p, d, t, ti)] :
+                    sg \in {"", "-", "+"}, p \in BOOLEAN, d \in DateParts, t \in BOOLEAN, ti \in TimeParts}
+
+(* xs:hexBinary: an even number of hexadecimal digits (white space collapses away at  *)
+(* the ends only).  Words over the classes "0" (digit), "a" / "F" (letters), "g" (no  *)
+(* hex digit), "s" (a blank).                                                         *)
+HexWords == UNION {[1..n -> {"0", "a", "F", "g", "s"}] : n \in 0..4}
+HexOK(hw) == LET v == Strip(hw) IN Len(v) % 2 = 0 /\ \A i \in DOMAIN v : v[i] \in {"0", "a", "F"}
+HexTable == {[w |-> hw, ok |-> HexOK(hw)] : hw \in HexWords}
+
+(* xs:base64Binary (3.2.16): quads of alphabet characters, single blanks allowed       *)
+(* between characters; the last quad may end in '=' after a character whose two low     *)
+(* bits are zero ("E": AEIMQUYcgkosw048) or in '==' after one whose four low bits are   *)
+(* zero ("Q": AQgw).  Classes: "B" any other alphabet character, "E", "Q", "=", "s",     *)
+(* "x" (outside the alphabet).                                                          *)
+B64Words == UNION {[1..n -> {"B", "E", "Q", "=", "s"}] : n \in 0..4}
+              \cup {<<"B", "B", "B", "B", "B", "Q", "=", "=">>, <<"B", "B", "B", "B", "B", "B", "=", "=">>,
+                    <<"B", "B", "s", "B", "B">>, <<"B", "B", "s", "s", "B", "B">>, <<"B", "x", "B", "B">>,
+                    <<"B", "B", "B", "B", "B">>, <<"B", "Q", "=", "s", "=">>}
+NoBlank(bw) == SelectSeq(bw, LAMBDA c : c # "s")
+IsAlpha(c) == c \in {"B", "E", "Q"}
+B64OK(bw) ==
+  LET v == NoBlank(Collapse(bw))  n == Len(v) IN      \* whiteSpace = collapse: blanks end up single
+  /\ n % 4 = 0
+  /\ \A i \in 1..n : i <= n - 4 => IsAlpha(v[i])
+  /\ n = 0 \/ LET q == SubSeq(v, n - 3, n) IN
+                \/ \A i \in 1..4 : IsAlpha(q[i])
+                \/ (IsAlpha(q[1]) /\ IsAlpha(q[2]) /\ q[3] \in {"E", "Q"} /\ q[4] = "=")
+                \/ (IsAlpha(q[1]) /\ q[2] = "Q" /\ q[3] = "=" /\ q[4] = "=")
+B64Table == {[w |-> bw, ok |-> B64OK(bw)] : bw \in B64Words}
+
+------------------------------------------------------------------------------
 (* The word machine: builds class words symbol by symbol; a word that holds a  *)
 (* hostile class can never become valid and is not extended.                   *)
 CONSTANTS MaxLen, Kinds
